@@ -1098,6 +1098,21 @@ h_HLgetdatainfo(void)
         H4V_CHECK(offs[g_j] == OFF_OF(g_exp_ref[g_j]), "C02: reported offset is where the data block is");
         H4V_CHECK(g_j == g_exp_total - 1 || lens[g_j] == blk_len(g_exp_ref[g_j] - 1), "C02: reported length of a non-final block is the block length");
     }
+    /* when every data block is reported and the element ends inside its last (standard-size) block, the reported lengths add up
+       to the element's length: the final entry is the number of data bytes actually in that block, where an independent reader
+       finds them */
+    /* (a trailing block table without any data block -- a state HLPwrite only passes through -- is left out) */
+    if (r != FAIL && with_arrays && r == g_exp_total && g_exp_total >= 2 && blk_len(g_exp_ref[g_exp_total - 1] - 1) == BL &&
+        g_tab[g_nt - 1]->block_list[0].ref != 0) {
+        int32 cap = 0, sum = 0;
+        for (i = 0; i < H4V_NT * H4V_NB; i++) /* at most NT tables x NB blocks */
+            if (i < g_exp_total) {
+                cap += blk_len(g_exp_ref[i] - 1);
+                sum += lens[i];
+            }
+        if (cap >= g_info->length && cap - BL < g_info->length)
+            H4V_CHECK(sum == g_info->length, "C02: reported lengths of all data blocks add up to the element length");
+    }
 #if H4V_CASE == 1 || H4V_CASE == 0
     H4V_COVER(r != FAIL && with_arrays && (unsigned)r < info_count && r >= 2, "HLgetdatainfo arrays larger than the element");
     H4V_COVER(r != FAIL && !with_arrays && r >= 3, "HLgetdatainfo count only");
